@@ -46,6 +46,18 @@ def _imp():
     return seqcount, PacketSeqCtrl, SequenceFlags
 
 
+def _through_a_packet(count):
+    """The count as the sequence count of a telecommand that is packed and decoded again ('acceptable as a packet sequence count')."""
+    from spacepackets.ecss.tc import PusTc
+    from spacepackets.ccsds.spacepacket import SpacePacketHeader
+    try:
+        raw = bytes(PusTc(service=17, subservice=1, apid=0x42, seq_count=count).pack())
+        a, b = PusTc.unpack(raw).seq_count, SpacePacketHeader.unpack(raw).seq_count
+        return a if a == b else (a, b)
+    except Exception as e:  # noqa: BLE001
+        return repr(e)
+
+
 def k_mem(ctx, width, ncalls, seed):
     sc, PSC, SF = _imp()
     r = random.Random(seed)
@@ -65,9 +77,10 @@ def k_mem(ctx, width, ncalls, seed):
             return ctx.fail("count.sequence", "value_differs_from_model", f"mem/{phase}", dict(case, call=i), observed=got, expected=want)
         if not 0 <= got < m:
             return ctx.fail("count.range", "out_of_range", "mem", dict(case, call=i), observed=got)
-        if width <= 14 and i % 7 == 0:
+        if width <= 14 and (i % 7 == 0 or got >= (1 << width) - 2 or (got & (got - 1)) == 0):
             ok2, e = attempt(PSC, SF.UNSEGMENTED, got)
             ctx.check("count.acceptable", ok2, "not_accepted_as_sequence_count", "mem", dict(case, call=i), observed=got)
+            ctx.check("count.acceptable", _through_a_packet(got) == got, "count_does_not_survive_a_packet_round_trip", "mem", dict(case, call=i), observed=_through_a_packet(got), expected=got)
         want = seq_next(want, width)
     ctx.ev("count.range")
     ctx.table("mem_widths", width)
@@ -128,9 +141,10 @@ def k_file(ctx, width, ncalls, restart, seed, provider="file", start_at=None):
                 return ctx.fail("count.sequence", "value_differs_from_model", f"file/{phase}", dict(case, call=i), observed=got, expected=want)
             if not 0 <= got < m:
                 return ctx.fail("count.range", "out_of_range", "file", dict(case, call=i), observed=got)
-            if width <= 14 and i % 7 == 0:
+            if width <= 14 and (i % 7 == 0 or got >= (1 << width) - 2 or (got & (got - 1)) == 0):
                 ok2, e = attempt(PSC, SF.UNSEGMENTED, got)
                 ctx.check("count.acceptable", ok2, "not_accepted_as_sequence_count", "file", dict(case, call=i), observed=got)
+                ctx.check("count.acceptable", _through_a_packet(got) == got, "count_does_not_survive_a_packet_round_trip", "file", dict(case, call=i), observed=_through_a_packet(got), expected=got)
             want = seq_next(want, width)
         ctx.ev("count.range")
         ctx.table("file_cells", f"{provider}/width={width}/restart={restart}")
